@@ -144,6 +144,9 @@ pub enum GoalSampler {
     /// through the target (2 t - x): the same distance from the target, and — for a target near a
     /// face of the box — frequently OUTSIDE the bounds of the space (a goal region that sticks out)
     Reflect,
+    /// harness-owned stream; like `Harness`, but the draw keeps the target's rotational
+    /// components bit for bit (a goal region of a pure-translation task)
+    Translate,
 }
 
 #[derive(Serialize, Deserialize, Clone, Debug, PartialEq)]
